@@ -1,8 +1,9 @@
 (* modelrun for C01: evaluates the extracted Coq history checker [obs_ok] on the observations of one history.
-   stdin, one line per history:   <id> <hist> <obs>          ("~" = empty)
+   stdin, one line per history:   <id> <hist> <obs> <scans>  ("~" = empty)
      hist = k=c.s.v,c.s.v;k=...   keys ascending; c s hex; v hex value id or "-" (delete)
      obs  = t.k.own.val,...       own: n (nothing buffered) | d (buffered delete) | v<hex id>; val: "-" (not found) | hex id
-   stdout: <id> <one 0/1 per observation | ~> *)
+     scans = t/k.k.k/k:own,k:own/k:v,k:v;...   range keys ascending / buffered writes (own: d | v<hex>) / returned pairs
+   stdout: <id> <one 0/1 per observation | ~> <one 0/1 per scan | ~> *)
 let split c s = if s = "~" || s = "" then [] else String.split_on_char c s
 let optv s = if s = "-" then None else Some (n_of_hex s)
 let parse_rec s = match String.split_on_char '.' s with
@@ -16,18 +17,28 @@ let parse_obs s = match String.split_on_char '.' s with
     let o = if own = "n" then None else if own = "d" then Some None else Some (Some (n_of_hex (String.sub own 1 (String.length own - 1)))) in
     { ro_ts = n_of_hex t; ro_key = n_of_hex k; ro_own = o; ro_val = optv v }
   | _ -> failwith ("bad obs " ^ s)
+let ownv s = if s = "d" then None else Some (n_of_hex (String.sub s 1 (String.length s - 1)))
+let kv f s = match String.index_opt s ':' with
+  | Some i -> (n_of_hex (String.sub s 0 i), f (String.sub s (i + 1) (String.length s - i - 1)))
+  | None -> failwith ("bad pair " ^ s)
+let parse_scan s = match String.split_on_char '/' s with
+  | [t; ks; own; res] ->
+    { so_ts = n_of_hex t; so_keys = List.map n_of_hex (split '.' ks);
+      so_own = List.map (kv ownv) (split ',' own); so_res = List.map (kv n_of_hex) (split ',' res) }
+  | _ -> failwith ("bad scan " ^ s)
 let () =
   try
     while true do
       let line = input_line stdin in
       match String.split_on_char ' ' (String.trim line) with
-      | [id; h; o] ->
+      | [id; h; o; sc] ->
         let hist = List.map parse_key (split ';' h) in
         let obs = List.map parse_obs (split ',' o) in
         let bits = String.concat "" (List.map (fun x -> if obs_ok hist x then "1" else "0") obs) in
         let all = si_ok hist obs in
         if all <> not (String.contains bits '0') then failwith "si_ok <> forall obs_ok";
-        print_endline (id ^ " " ^ (if bits = "" then "~" else bits))
+        let sbits = String.concat "" (List.map (fun x -> if scan_ok hist x then "1" else "0") (List.map parse_scan (split ';' sc))) in
+        print_endline (id ^ " " ^ (if bits = "" then "~" else bits) ^ " " ^ (if sbits = "" then "~" else sbits))
       | _ -> if String.trim line <> "" then failwith ("bad line " ^ line)
     done
   with End_of_file -> ()
